@@ -29,6 +29,13 @@ quick.append(job("c07.range", secs=90, jobs=2, n=3, d=1, metric=HALF_L1, leaf=2)
 quick.append(job("c07.knn", secs=120, jobs=2, n=3, d=1, k=1, kind=BALL, metric=SYM_L2, leaf=2, B=6, shift=2, qto=3000))
 quick.append(job("c07.knn", secs=120, jobs=2, n=3, d=1, k=1, kind=BALL, metric=SYM_L2, leaf=2, B=4, qto=3000))
 quick.append(job("c07.knn", secs=120, jobs=2, n=3, d=1, k=2, kind=BALL, metric=SYM_L2, leaf=1, B=4, qto=3000))
+# wide but shallow: many dimensions, two or three points (distance code paths that depend on the dimension)
+for d in (3, 9, 17):
+    for metric in (L1, L2, LINF):
+        quick.append(job("c07.knn", secs=60, qto=3000, n=2, d=d, k=1, kind=LIN, metric=metric, leaf=1, B=64))
+quick.append(job("c07.knn", secs=60, qto=3000, n=3, d=9, k=2, kind=LIN, metric=L2, leaf=1, B=64))
+quick.append(job("c07.knn", secs=60, qto=3000, probe=True, n=2, d=9, k=1, kind=KD, metric=L2, leaf=1, B=64))
+quick.append(job("c07.range", secs=60, qto=3000, n=2, d=9, metric=L1, leaf=1, B=64, kind=LIN))
 # L2 through rdistance (k-d tree, linear scan); the ball tree's bound concretises (l2_dist) -> not run
 for kind in (KD, LIN):
     quick.append(job("c07.knn", secs=60, n=3, d=1, k=2, kind=kind, metric=L2, leaf=1))
